@@ -197,6 +197,12 @@ def mutate_text(r, text, kind):
     k = r.randrange(len(pos))
     i, j = pos[k]
     new = [list(l) for l in lines]
+    if kind == "renumber":     # n_colvars of another grid
+        for qi, l in enumerate(new):
+            if len(l) == 2 and l[0] == "n_colvars" and INT_RE.match(l[1]):
+                new[qi][1] = str(int(l[1]) + r.choice([-1, 1, 2]))
+                return "\n".join(" ".join(l_) for l_ in new) + "\n", "n_colvars changed to %s" % new[qi][1]
+        return None
     if kind == "insert":       # one more number after a token: positional readers shift, parameter lines have a surplus value
         if new[i][j] in ("{", "}", "#") or new[i][j] in KEYS[:2] or (new[i] and new[i][0] == "#"):
             return None        # (a longer header line can still be a header, of another grid: that is the re-gridding case)
@@ -312,7 +318,7 @@ def gen_io_case(r, k):
         c["add"] = 1 if (fmt == "multicol" and r.random() < 0.3) else 0
         c["buf"] = {"raw": 3, "rawg": 8}.get(fmt, 3)
     kinds = {"multicol": ["truncate", "drop", "garble", "insert"], "raw": ["truncate", "drop", "garble"],
-             "rawg": ["truncate", "drop", "garble"], "file": ["truncate-rows"], "state": ["truncate", "drop", "garble", "insert"],
+             "rawg": ["truncate", "drop", "garble"], "file": ["truncate-rows"], "state": ["truncate", "drop", "garble", "insert", "renumber"],
              "dx": [], "remap": ["truncate-rows", "garble"]}[fmt]
     c["mutations"] = [(kind, r.randint(0, 1 << 30)) for kind in kinds]
     return c
@@ -345,7 +351,8 @@ def read_cmds(c, text):
     if f == "remap":
         return "GR multicol %d %s TEXT %s" % (c["add"], s, bar), "READ multicol %d %s TOKS %s" % (c["add"], s, toks)
     if f == "multicol":
-        return "GR multicol %d %s TEXT %s" % (c["add"], s, bar), "READ multicol %d %s TOKS %s" % (c["add"], s, toks)
+        # every other case through the file-name variant of the reader (and its return code)
+        return "GR %s %d %s TEXT %s" % ("multicolF" if c["id"] % 2 else "multicol", c["add"], s, bar), "READ multicol %d %s TOKS %s" % (c["add"], s, toks)
     return "GR raw %s TEXT %s" % (s, bar), "READ raw %s TOKS %s" % (s, toks)
 
 
@@ -741,3 +748,229 @@ def run_round3(run, r, unit, model, n):
         run.violation("io:hang:file-header-nd0", "the grid constructor given a multicolumn file whose header is '# 0', '# x' or '#' %s" % (
             "did not return within 20 s" if rc == 124 else "answered %s instead of an error" % o.split("\n")[:3]),
             {"kind": "unit", "case": "GF 1 TEXT # 0|"})
+
+
+# ------------------------------------------------------------------------------------------------------------
+# round 4: the remaining value->bin and grid->grid entry points of colvar_grid
+import itertools, math
+from fractions import Fraction as Fr
+
+
+def run_round4(run, r, unit, model, n):
+    widths = [1.0, 0.5, 0.25, 2.0, 0.75, 0.375]
+    lines, meta = [], []
+    # ---- value_to_bin_scalar / _bound / _fraction / get_colvars_index
+    for k in range(n):
+        nd = r.choice([1, 2, 3])
+        nx = [r.randint(1, 6) for _ in range(nd)]
+        lower = [V.dyadic(r, -4, 4) for _ in range(nd)]
+        wd = [r.choice(widths) for _ in range(nd)]
+        per = [r.randint(0, 1) for _ in range(nd)]
+        xs = []
+        for d in range(nd):
+            q = r.random()
+            if q < 0.3:
+                xs.append(lower[d] + r.randint(-2, nx[d] + 2) * wd[d])
+            elif q < 0.55:
+                xs.append(lower[d] - r.randint(1, 15) * wd[d] / 8 if r.random() < 0.5 else lower[d] + nx[d] * wd[d] + r.randint(0, 15) * wd[d] / 8)
+            elif q < 0.9:
+                xs.append(lower[d] + r.randint(0, nx[d] * 8 - 1) * wd[d] / 8 + wd[d] / 16)
+            else:
+                xs.append(lower[d] + r.choice([-1, 1]) * r.randint(1, 5) * nx[d] * wd[d] + wd[d] / 4)
+        lines.append("OPB %d %s %s %s %s %s" % (nd, " ".join(map(str, nx)), " ".join(map(V.hexf, lower)), " ".join(map(V.hexf, wd)),
+                                                " ".join(map(str, per)), " ".join(map(V.hexf, xs))))
+        meta.append(("OPB", nd, nx, lower, wd, per, xs))
+    # ---- wrap / wrap_to_edge
+    for k in range(n // 2):
+        nd = r.choice([1, 2, 3])
+        nx = [r.randint(1, 5) for _ in range(nd)]
+        per = [r.randint(0, 1) for _ in range(nd)]
+        ix = [r.randint(-3 * m, 3 * m + 1) if r.random() < 0.6 else r.randint(0, m - 1) for m in nx]
+        lines.append("OPW %d %s %s %s" % (nd, " ".join(map(str, nx)), " ".join(map(str, per)), " ".join(map(str, ix))))
+        meta.append(("OPW", nd, nx, per, ix))
+    # ---- map_grid and the element-wise operations
+    for k in range(n // 2):
+        g1 = rand_grid(r, True, True)
+        op = r.choice(["map", "map", "map", "add", "add", "copy", "delta", "mul", "addc", "small", "raw", "rawv", "set"])
+        if op == "map":
+            g2 = dict(g1)
+            if r.random() < 0.7:     # another geometry: shifted by whole or half bins, other sizes
+                g2["nx"] = [r.randint(1, 4) for _ in g1["nx"]]
+                g2["lower"] = [l + r.randint(-4, 4) * w * r.choice([1.0, 0.5]) for l, w in zip(g1["lower"], g1["width"])]
+                g2["upper"] = [l + m * w for l, m, w in zip(g2["lower"], g2["nx"], g2["width"])]
+            nt2 = g1["mult"]
+            for m in g2["nx"]:
+                nt2 *= m
+            g2["data"] = [rand_value(r, True) for _ in range(nt2)]
+            lines.append("OPM %s %s" % (spec(g1), spec(g2)))
+            meta.append(("OPM", g1, g2))
+        else:
+            g2 = other_data(r, g1, True)
+            c = r.choice([1.0, 1.0, 0.5, -2.0, 3.0]) if op == "add" else V.dyadic(r, -4, 4)
+            lines.append("OPE %s %s %s %s" % (op, V.hexf(c), spec(g1), spec(g2)))
+            meta.append(("OPE", op, c, g1, g2))
+    rc1, oi, e1 = V.run_lines(unit, lines)
+    rc2, om, e2 = V.run_lines(model, lines)
+    if len(oi) != len(lines):
+        run.violation("ops:crash", "the real code died (rc=%d) on: %s" % (rc1, lines[len(oi)][:300]), {"kind": "unit", "case": lines[len(oi)]})
+        return
+    for cmd, mt, li, lm in zip(lines, meta, oi, om + ["?"] * len(lines)):
+        kind = mt[0]
+        run.count(cmd, True)
+        run.dist("ops:" + kind + (":" + mt[1] if kind == "OPE" else ""))
+        bad = None
+        if kind == "OPB":
+            _, nd, nx, lower, wd, per, xs = mt
+            w = li.split()
+            for d in range(nd):
+                b, bb, fr_ = int(w[3 * d]), int(w[3 * d + 1]), Fr(float.fromhex(w[3 * d + 2]))
+                q = (Fr(xs[d]) - Fr(lower[d])) / Fr(wd[d])
+                fl = q.numerator // q.denominator
+                if b != fl:
+                    bad = "value %r: bin %d, the bin that contains it is %d" % (xs[d], b, fl)
+                elif not (0 <= bb < nx[d]) or (0 <= fl < nx[d] and bb != fl) or (not per[d] and fl < 0 and bb != 0) or (not per[d] and fl >= nx[d] and bb != nx[d] - 1):
+                    bad = "value %r (bin %d of %d, periodic %d): bounded bin %d" % (xs[d], fl, nx[d], per[d], bb)
+                elif not (0 <= fr_ < 1) or fl + fr_ != q:
+                    bad = "value %r: fraction %s inside bin %d, (x-lower)/width = %s" % (xs[d], float(fr_), fl, float(q))
+            if w[3 * nd] != "I" or [int(t) for t in w[3 * nd + 1:]] != [int(w[3 * d]) for d in range(nd)]:
+                bad = bad or "get_colvars_index differs from the per-dimension bins: %s" % li
+        elif kind == "OPW":
+            _, nd, nx, per, ix = mt
+            w = li.split()
+            r_ = [int(t) for t in w[:nd]]; e_ = [int(t) for t in w[nd + 1:2 * nd + 1]]; edge = int(w[2 * nd + 1])
+            want_r = [(i % m) if p else i for i, m, p in zip(ix, nx, per)]
+            want_e = [(i % m) if p else min(max(i, 0), m - 1) for i, m, p in zip(ix, nx, per)]
+            want_edge = int(any((not p) and not (0 <= i < m) for i, m, p in zip(ix, nx, per)))
+            ws = w[2 * nd + 3:]
+            want_w = "ERR" if want_edge else " ".join(map(str, want_r))
+            if r_ != want_r or e_ != want_e or edge != want_edge or " ".join(ws) != want_w:
+                bad = "index %s on sizes %s periodic %s: wrap_to_edge gives %s / %s / %d, wrap gives %s" % (ix, nx, per, r_, e_, edge, " ".join(ws))
+        elif kind == "OPM":
+            _, g1, g2 = mt
+            gi = parse_grid(li)
+            m_ = g1["mult"]
+            exp = list(g1["data"])
+            for a_, ix in enumerate(itertools.product(*[range(q) for q in g1["nx"]])):
+                tgt, ok = 0, True
+                for d in range(g1["nd"]):
+                    x = g1["lower"][d] + g1["width"][d] * (0.5 + ix[d])
+                    b = math.floor((x - g2["lower"][d]) / g2["width"][d])
+                    if not (0 <= b < g2["nx"][d]):
+                        ok = False
+                    tgt = tgt * g2["nx"][d] + b
+                if ok:
+                    exp[a_ * m_:(a_ + 1) * m_] = g2["data"][tgt * m_:(tgt + 1) * m_]
+            if gi is None or gi["data"] != exp:
+                bad = "map_grid of a grid on lower %s sizes %s onto lower %s sizes %s gives %s; every point takes the value of the bin that contains its centre: %s" % (
+                    g2["lower"], g2["nx"], g1["lower"], g1["nx"], gi["data"][:8] if gi else "ERR", exp[:8])
+        elif kind == "OPE":
+            _, op, c, g1, g2 = mt
+            gi = parse_grid(li)
+            a_, b_ = g1["data"], g2["data"]
+            exp = {"add": [x + c * y for x, y in zip(a_, b_)], "copy": b_, "raw": b_, "rawv": b_, "set": b_,
+                   "delta": [y - x for x, y in zip(a_, b_)], "mul": [x * c for x in a_], "addc": [x + c for x in a_],
+                   "small": [c if x < c else x for x in a_]}[op]
+            if gi is None or gi["data"] != exp:
+                bad = "%s(%r) gives %s, expected %s" % (op, c, gi["data"][:8] if gi else "ERR", exp[:8])
+        if bad:
+            run.violation("ops:" + kind, bad, {"kind": "unit", "case": cmd, "impl": li})
+        if li.strip() != lm.strip():
+            gi, gm = parse_grid(li), parse_grid(lm)
+            if gi is None or gm is None or grids_differ(gi, gm, 0.0):
+                run.mismatch("ops:" + kind, cmd[:500], li[:300], lm[:300])
+    # ---- the overloads that take the current values of the variables (ABF, metadynamics, histogram call sites)
+    cl, cm = [], []
+    for k in range(max(8, n // 10)):
+        nd = r.choice([1, 2, 3])
+        cvs, zs = [], []
+        for d in range(nd):
+            w = r.choice([1.0, 0.5, 0.25, 2.0]); lo = V.dyadic(r, -4, 4); m = r.randint(1, 5)
+            cvs.append({"lower": lo, "upper": lo + m * w, "width": w, "period": 0.0, "n": m})
+            q = r.random()
+            zs.append(lo + r.randint(-2, m + 2) * w if q < 0.3 else (lo - r.randint(1, 15) * w / 8 if q < 0.45 else
+                      (lo + m * w + r.randint(0, 15) * w / 8 if q < 0.6 else lo + r.randint(0, 8 * m - 1) * w / 8 + w / 16)))
+        cl.append("SW " + sspec(1, cvs, cvs, []) + " CUR " + " ".join(V.hexf(z) for z in zs))
+        cm.append((cvs, zs))
+    rc1, oi, e1 = V.run_lines(unit, cl)
+    ml = []
+    for (cvs, zs), li in zip(cm, oi):
+        ml.append("OPB %d %s %s %s %s %s" % (len(cvs), " ".join(str(c["n"]) for c in cvs), " ".join(V.hexf(c["lower"]) for c in cvs),
+                                            " ".join(V.hexf(c["width"]) for c in cvs), " ".join("0" for _ in cvs), " ".join(V.hexf(z) for z in zs)))
+    rc2, om, e2 = V.run_lines(model, ml)
+    for cmd, (cvs, zs), li, lm in zip(cl, cm, oi, om + ["?"] * len(cl)):
+        run.count(cmd, True)
+        run.dist("ops:current-values")
+        w = li.split()
+        nd = len(cvs)
+        try:
+            sect = {}
+            key = None
+            for t in w:
+                if t in ("V", "B", "BB", "F", "I", "IB", "FLAT", "NX", "P"):
+                    key = t; sect[key] = []
+                else:
+                    sect[key].append(t)
+            vals = [float.fromhex(t) for t in sect["V"]]
+            b = [int(t) for t in sect["B"]]; bb = [int(t) for t in sect["BB"]]; fr_ = [float.fromhex(t) for t in sect["F"]]
+            flat = int(sect["FLAT"][0])
+        except (KeyError, ValueError, IndexError):
+            run.mismatch("ops:current-values", cmd[:300], li[:200], lm[:200]); continue
+        bad = None
+        if vals != zs:
+            bad = "the variables were set to %s and report %s" % (zs, vals)
+        exp_flat = 0
+        for d, c in enumerate(cvs):
+            q = (Fr(zs[d]) - Fr(c["lower"])) / Fr(c["width"])
+            fl = q.numerator // q.denominator
+            cl_ = min(max(fl, 0), c["n"] - 1)
+            exp_flat = exp_flat * c["n"] + cl_
+            if b[d] != fl or bb[d] != cl_ or Fr(fr_[d]) != q - fl:
+                bad = bad or "variable at %r on [%r, %r) width %r: current bin %d (bounded %d, fraction %r), expected %d (%d, %r)" % (
+                    zs[d], c["lower"], c["upper"], c["width"], b[d], bb[d], fr_[d], fl, cl_, float(q - fl))
+        if [int(t) for t in sect["I"]] != b or [int(t) for t in sect["IB"]] != bb or flat != exp_flat:
+            bad = bad or "get_colvars_index %s / _bound %s / current_bin_flat_bound %d disagree with the per-variable bins %s / %s (flat %d)" % (
+                sect["I"], sect["IB"], flat, b, bb, exp_flat)
+        if bad:
+            run.violation("ops:current-values", bad, {"kind": "unit", "case": cmd, "impl": li})
+        mw = lm.split()
+        try:
+            mb = [int(mw[3 * d]) for d in range(nd)]; mbb = [int(mw[3 * d + 1]) for d in range(nd)]; mf = [float.fromhex(mw[3 * d + 2]) for d in range(nd)]
+        except (ValueError, IndexError):
+            mb = None
+        if mb is None or mb != b or mbb != bb or mf != fr_:
+            run.mismatch("ops:current-values", cmd[:300], li[:200], lm[:200])
+    # ---- add_extra_bin on real variables
+    xl, xm = [], []
+    for k in range(max(6, n // 10)):
+        nd = r.choice([1, 2, 3])
+        cvs = []
+        for d in range(nd):
+            w = r.choice([1.0, 0.5, 0.25, 0.3, 0.7]); lo = r.choice([V.dyadic(r, -4, 4), r.choice(NONDYADIC)]); m = r.randint(1, 4)
+            up = lo + m * w
+            cvs.append({"lower": lo, "upper": up, "width": w, "period": (up - lo) if r.random() < 0.4 else 0.0, "n": m})
+        xl.append(("SW " + sspec(1, cvs, cvs, []) + " XGRID", "XBIN %d %s" % (nd, " ".join("%s %s %s %s" % (V.hexf(c["lower"]), V.hexf(c["upper"]), V.hexf(c["width"]), V.hexf(c["period"])) for c in cvs))))
+        xm.append(cvs)
+    rc1, oi, e1 = V.run_lines(unit, [a for a, _ in xl])
+    rc2, om, e2 = V.run_lines(model, [b for _, b in xl])
+    for (a, b), cvs, li, lm in zip(xl, xm, oi, om + ["?"] * len(xl)):
+        gi = parse_grid(li)
+        run.count(a, True)
+        run.dist("ops:extra-bin")
+        if gi is None:
+            run.mismatch("ops:extra-bin", a[:300], li[:200], lm[:200]); continue
+        bad = None
+        for d, c in enumerate(cvs):
+            per = c["period"] > 0
+            if gi["nx"][d] != (c["n"] if per else c["n"] + 1) or not close(gi["lower"][d], c["lower"] - c["width"] / 2, 1e-13) or gi["per"][d] != int(per):
+                bad = "variable on [%r, %r] width %r (%s): grid with an extra bin has %d points from %r, periodic %d" % (
+                    c["lower"], c["upper"], c["width"], "periodic" if per else "not periodic", gi["nx"][d], gi["lower"][d], gi["per"][d])
+        if bad:
+            run.violation("ops:extra-bin", bad, {"kind": "unit", "case": a, "impl": li})
+        mw = lm.split()
+        try:
+            ok = all(int(mw[4 * d]) == gi["nx"][d] and close(float.fromhex(mw[4 * d + 1]), gi["lower"][d], 1e-13) and
+                     close(float.fromhex(mw[4 * d + 2]), gi["upper"][d], 1e-13) and int(mw[4 * d + 3]) == gi["per"][d] for d in range(len(cvs)))
+        except (ValueError, IndexError):
+            ok = False
+        if not ok:
+            run.mismatch("ops:extra-bin", a[:300], li[:200], lm[:200])
